@@ -125,7 +125,8 @@ def get_engine(h):
     e.violations = []
     e.sites_reached = {}
     e.stats = {k: (0.0 if isinstance(v, float) else 0) for k, v in e.stats.items()}
-    e.known = [k for k in KNOWN if k["property"] == SPEC.PROPERTY and k["harness"] == h.name]
+    e.known = [k for k in KNOWN if k["property"] == SPEC.PROPERTY and
+               (k["harness"] == h.name or (k.get("harness_prefix") and h.name.startswith(k["harness"])))]
     return e
 
 
